@@ -1,9 +1,9 @@
 (* C11 -- Curation statistics count the real cuts, breaks and joins.
    Only statements, each closed by [exact] of a lemma from Proofs/Junctions.v.
-   (cuts = output fragments - input contigs follows from C01's conservation:
-   see Properties/C01.v) *)
+   the cut counter is proved from the pipeline invariant of C01) *)
 From Tola Require Import Py.Base Model.Fragment Model.Scaffold Model.Namer Model.Remap
   Proofs.Junctions.
+From Tola Require Import Model.Lookup Model.OverlapResult Model.RemapSpec Proofs.RemapFinal.
 From Coq Require Import Permutation.
 
 (* an adjacency is the unordered pair of the two facing contig ends: the
@@ -79,3 +79,12 @@ Theorem C11_legacy_refuted : exists rows js jr,
   /\ ~ (forall j, In j js <-> In j jr).
 Proof. exact legacy_junction_refuted. Qed.
 Print Assumptions C11_legacy_refuted.
+
+(* the reported number of cuts equals the number of output fragments minus the
+   number of input contigs, for every run of the whole pipeline that completes *)
+Theorem C11_cuts_spec : forall c g prefix bpt input pretext o,
+  input_ok input ->
+  remap c g prefix bpt input pretext = Ok o ->
+  Z.of_nat (length (out_frags o)) = Z.of_nat (length (in_frags input)) + out_cuts o.
+Proof. exact cuts_spec. Qed.
+Print Assumptions C11_cuts_spec.
